@@ -308,8 +308,13 @@ func stackScenarios(tier string, r *vlib.Rng) []*scen.Scenario {
 			for _, up := range []struct {
 				pad     int
 				chunked bool
-			}{{1<<20 + 4096, true}, {3 << 20, true}, {2 << 20, false}, {1 << 20, true}, {70000, true}} {
-				if tier != "thorough" && (kind == "reset0") != (up.pad == 3<<20 || up.pad == 70000) {
+			}{{1<<20 + 4096, true}, {3 << 20, true}, {2 << 20, false}, {1 << 20, true}, {70000, true},
+				// powers of two and their successors up to what the default body limit admits, declared and chunked
+				{4<<20 + 1, false}, {8<<20 + 1, true}, {16 << 20, false}, {16<<20 + 1, false}, {32<<20 + 1, true}, {64<<20 + 1, false}} {
+				if tier != "thorough" && (kind == "reset0") != (up.pad == 3<<20 || up.pad == 70000 || up.pad == 8<<20+1 || up.pad == 16<<20) {
+					continue
+				}
+				if tier != "thorough" && up.pad > 33<<20 {
 					continue
 				}
 				sc := &scen.Scenario{Engine: engine, Balancer: "priority", Profile: "auto", Method: "POST", Path: "/olla/proxy/v1/chat/completions",
